@@ -96,6 +96,8 @@ func checkC14(w *World, r *Report) {
 	c14DefaultRule(w, r, pa, fa)
 	c14ConfigType(w, r)
 	c14RuleFailureFailsSet(w, r, fa)
+	// a type-confused rule definition panics while it is processed; the panic must come out as an error
+	c19RecoverIntoResult(w, r, "C14.8")
 }
 
 // stageFields returns the names of the four pipeline fields of the rule implementation in the
